@@ -551,15 +551,37 @@ def r03_2_backtrack_contract(ctx: Ctx) -> None:
                 same = _is_target(True)
                 rv = v.elts[0] if isinstance(v, ast.Tuple) and v.elts else None
                 rb = resolve_name(p, rv.id) if isinstance(rv, ast.Name) else rv
-                if changed:
-                    okb = isinstance(rb, ast.Call) and call_attr(rb) == "_finish_apply" and src(rb.func.value) == f"{cname}.second" and [src(a) for a in rb.args] == [up]  # type: ignore[union-attr]
-                    if not okb:
-                        problem = problem or f"when upstream changed the node must be rebuilt as {cname}.second._finish_apply({up})"
-                elif same:
-                    if not (rb is not None and src(rb) == tree):
-                        problem = problem or "when upstream is unchanged the original tree must be returned (no rebuilt copy)"
+                rebuilt = isinstance(rb, ast.Call) and call_attr(rb) == "_finish_apply" and src(rb.func.value) == f"{cname}.second" and [src(a) for a in rb.args] == [up]  # type: ignore[union-attr]
+                kept = rb is not None and src(rb) == tree
+
+                def _second_is_existing() -> bool:
+                    # the path has established that commute() handed the existing operation back as `second`
+                    for fct in facts:
+                        if fct.kind == "IS" and fct.polarity and f"{cname}.second" in fct.args:
+                            other = [a for a in fct.args if a != f"{cname}.second"]
+                            try:
+                                oe = ast.parse(other[0], mode="eval").body if other else None
+                            except SyntaxError:
+                                oe = None
+                            if oe is not None and denotes(p, oe, tree, ("operation",)):
+                                return True
+                    return False
+
+                if rebuilt:
+                    pass  # rebuilding with the commuted operation is right whether or not upstream changed
+                elif kept:
+                    if not same:
+                        problem = problem or f"the original node is returned on a path that has not established `{up} is <the node's target>`"
+                    elif not _second_is_existing():
+                        problem = problem or (
+                            f"the original node is kept whenever `{up}` is the node's own target, without checking that {cname}.second is the node's operation: "
+                            "when commute() replaces the existing operation (a projection that supersedes a calculation: second=Identity()) and the moved "
+                            "operation does nothing further upstream, the superseded operation stays in the tree while done=True is reported"
+                        )
+                elif changed:
+                    problem = problem or f"when upstream changed the node must be rebuilt as {cname}.second._finish_apply({up})"
                 else:
-                    problem = problem or f"the rebuilt node is not conditional on `{up} is not <the node's target>`"
+                    problem = problem or f"the node is neither rebuilt as {cname}.second._finish_apply({up}) nor handed back unchanged"
                 d = v.elts[1] if isinstance(v, ast.Tuple) and len(v.elts) > 1 else None
                 okd = isinstance(d, ast.BoolOp) and isinstance(d.op, ast.And) and {src(x) for x in d.values} == {dn, f"{cname}.done"}
                 if not okd:
@@ -583,7 +605,15 @@ def r03_2_backtrack_contract(ctx: Ctx) -> None:
             here = has_fact(facts, "EQ", tuple(sorted((pref, f"{tcap}.engine"))), True)
             rv = v.elts[0] if isinstance(v, ast.Tuple) and v.elts else None
             if here:
-                ok = isinstance(rv, ast.Call) and call_attr(rv) == "reapply" and rv.args and isinstance(rv.args[0], ast.Call) and call_attr(rv.args[0]) == "apply" and src(rv.args[0].func.value) == op and [src(a) for a in rv.args[0].args] == [tcap]  # type: ignore[union-attr]
+                def _is_apply(e) -> bool:
+                    b = resolve_name(p, e.id) if isinstance(e, ast.Name) else e
+                    return isinstance(b, ast.Call) and call_attr(b) == "apply" and isinstance(b.func, ast.Attribute) and src(b.func.value) == op and [src(a) for a in b.args] == [tcap]
+
+                ok = isinstance(rv, ast.Call) and call_attr(rv) == "reapply" and bool(rv.args) and _is_apply(rv.args[0])
+                if not ok and rv is not None and _is_apply(rv):
+                    # the applied relation itself, where the path knows it already lives in this engine (the operation
+                    # was elided in favour of a relation of the destination engine: nothing left to transfer)
+                    ok = has_fact(facts, "EQ", tuple(sorted(("self", f"{src(rv)}.engine"))), True)
                 ok = ok and isinstance(v.elts[1], ast.Constant) and v.elts[1].value is True  # type: ignore[union-attr]
                 if ok:
                     run.ok("R03.2", inst + ":transfer-apply")
